@@ -5,8 +5,20 @@ package cast
 /*@
 pred castIsInt(v) := hasType(v, int) || hasType(v, int8) || hasType(v, int16) || hasType(v, int32) || hasType(v, int64) || hasType(v, uint) || hasType(v, uint8) || hasType(v, uint16) || hasType(v, uint32) || hasType(v, uint64)
 
+extern ToIntE
+  props C06
+  option pure
+
+extern ToInt64E
+  props C06
+  option pure
+
+extern ToStringE
+  props C06
+  option pure
+
 func ToFloat64E
-  props C03
+  props C03 C06
   option pure
   ensures floats-as-is: hasType(value, float64) || hasType(value, float32) ==> result1 == nil && result0 == realval(value)
   ensures ints-numerically: castIsInt(value) ==> result1 == nil && result0 == float64(intval(value))
